@@ -3,6 +3,9 @@
   Theorems over `Call.step`, `runActs`, `connLoop`, `connStep`, `runSchedule` (lean/Varlink/Service.lean).
 -/
 import Varlink.Service
+import VarlinkProofs.Props.C02
+import Varlink.Extracted.Code
+import Varlink.ExpectedCode
 namespace Varlink.C01
 open Varlink
 
@@ -309,6 +312,30 @@ theorem system_trace (reg : Registry) (beh : Behaviour) (inputs : Nat → List B
   simp only [initConn, List.nil_append, Nat.zero_add] at this
   exact ⟨this.1, this.2.1, this.2.2.2⟩
 
+
+/-! ### byte streams: the partition of the request bytes into writes does not matter -/
+
+/-- what a connection does with a byte stream delivered as the segmentation `net`: the frames the
+    reader recovers (any reader capacity), fed to the loop -/
+def serveStream (reg : Registry) (beh : Behaviour) (cap n : Nat) (net : Net) : ConnTrace :=
+  connLoop reg beh (readAll cap n {} net).1
+
+/-- **All partitions of the request bytes into writes give the same trace**: what is dispatched and
+    what is replied depends only on the bytes — it is `connLoop` on the NUL-separated pieces of the
+    concatenated stream; an incomplete trailing frame is not in that list, hence never dispatched. -/
+theorem trace_independent_of_segmentation (reg : Registry) (beh : Behaviour) (cap : Nat) (hcap : cap > 0)
+    (net : Net) (n : Nat) (hn : n > Varlink.C02.nulCount net.flatten) :
+    serveStream reg beh cap n net = connLoop reg beh (splitOnNul net.flatten).1 := by
+  unfold serveStream
+  rw [Varlink.C02.frames_independent_of_segmentation cap hcap n {} net (by simpa [pending] using hn)]
+  simp [pending]
+
+theorem same_bytes_same_trace (reg : Registry) (beh : Behaviour) (cap₁ cap₂ : Nat) (h₁ : cap₁ > 0) (h₂ : cap₂ > 0)
+    (net₁ net₂ : Net) (h : net₁.flatten = net₂.flatten) (n : Nat) (hn : n > Varlink.C02.nulCount net₁.flatten) :
+    serveStream reg beh cap₁ n net₁ = serveStream reg beh cap₂ n net₂ := by
+  rw [trace_independent_of_segmentation reg beh cap₁ h₁ net₁ n hn,
+      trace_independent_of_segmentation reg beh cap₂ h₂ net₂ n (by rw [← h]; exact hn), h]
+
 /-! ### Non-vacuity -/
 example : (runActs { more := true } false
     [.setContinues true, .reply (.val .null), .setContinues false, .reply .absent]).1.length = 2 := by decide
@@ -316,5 +343,11 @@ example : (runActs { more := false } false
     [.setContinues true, .reply (.val .null), .setContinues false, .reply .absent]).2
     = [.done, .refusedContinues, .done, .sent] := by decide
 example : [0, 1, 0, 1, 0].count 0 ≥ [str "a", str "b"].length + 1 := by decide
+
+/-- **Tie to the source**: the declarations of /repo that this property's model transliterates
+    (`Extracted.codeNames_C01`) have, in the current working tree, exactly the fingerprints of the code the
+    model was validated against. Any change to them breaks this obligation; the check then searches the
+    correspondence streams for an input on which the changed code violates the property. -/
+theorem modelled_code_unchanged : Varlink.Extracted.code_C01 = Varlink.ExpectedCode.code_C01 := by decide
 
 end Varlink.C01
